@@ -186,6 +186,10 @@ class DepartureRun(PubSubRun):
     def setup(self):
         super().setup()
         w = self.w
+        # in a quarter of the runs a write to a reset connection fails with ECONNABORTED (see SimNet.abort_errno)
+        w.net.abort_errno = self.ch.flag("cfg.abort_errno", 1, 4)
+        if w.net.abort_errno:
+            self.res.probes["aborted_errno_runs"] += 1
         if self.monitor is None:
             mon = self.new_actor("mon")
             mon.open()
